@@ -4,6 +4,7 @@ import subprocess, re
 t = subprocess.run(["python3", "/verif/tools_seeded_table.py"], capture_output=True, text=True).stdout
 p = "/verif/DESIGN.md"
 s = open(p).read()
-s = re.sub(r"<!-- seeded-table:begin -->.*<!-- seeded-table:end -->", "<!-- seeded-table:begin -->\n" + t + "<!-- seeded-table:end -->", s, flags=re.S)
+a, b = s.index("<!-- seeded-table:begin -->"), s.index("<!-- seeded-table:end -->")
+s = s[:a] + "<!-- seeded-table:begin -->\n" + t + s[b:]
 open(p, "w").write(s)
 print(t.count("\n") - 2, "rows")
